@@ -70,6 +70,10 @@ def run(ctx):
     if ctx.replay:
         import json
         rp = json.load(open(ctx.replay))["replay"]
+        if rp.get("spec") == "NormDrop":
+            from .. import hist_common as HC
+            from . import c13
+            return HC.replay_file(ctx, ctx.replay, {"output"}, "NormDrop", c13.RP, set_consts=("Acts",), raw_consts=("StatsSet",))
         if rp.get("kind", "").startswith("layer"):
             rep = core.Report(ctx, "model_checking")
             layer_forms(ctx, rep)
@@ -88,6 +92,9 @@ def run(ctx):
     cases = CC.nn_cases(ctx, rep, with_grad=False)
     CC.replay(ctx, rep, cases, KINDS, replayer=CC.NN_REPLAYER, spec="NNCatalog")
     layer_forms(ctx, rep)
+    # the stateful layer form: BatchNorm modules over call histories (spec/NormDrop.tla)
+    from . import c13
+    c13.bn_history_runs(ctx, rep, {"output"}, {"mode", "stats", "fwd"}, 4 if ctx.quick else 5, "bnfwd")
     rep.exhaustive = True
     rep.extra["cases"] = len(cases)
     return rep.finish()
